@@ -13,6 +13,8 @@ Decided:
               position of the first frame with overflow checking
   C06.inval   after Decoder::seek succeeds the front-end discards what it had buffered before skipping forward
               (VecDeque::clear; the channel reader marks its frame fully consumed), and only then skips
+  C06.skip    the forward skip loops of the three readers take min(buffered amount, distance) in the reader's unit,
+              consume exactly that (x channels for interleaved samples) and advance the position by it
   C06.end     beyond-end and before-start requests have live error exits; the byte reader returns the requested position
 Not decided: exact landing under arbitrary histories (value-level).
 """
@@ -102,6 +104,63 @@ def run(ctx, rep):
                         if okb:
                             found = True
         rep.check("C06.units", "%s uses the same ceil(bits/8) x channels" % path, found, loc_of(b))
+
+    # ---- C06.skip: the forward skip after a coarse seek counts in one unit -------------------------------------------
+    for path, unit in (("decode::FlacSampleReader::seek", "interleaved"), ("decode::FlacChannelReader::seek", "frames"), ("<decode::FlacByteReader<R, E> as std::io::Seek>::seek", "bytes")):
+        b = _get(F, rep, "C06.skip", path)
+        if b is None:
+            continue
+        mins = [(bi, t) for bi, t in b.calls() if re.search(r"Ord::min$", callee_name(t))]
+        cons = [(bi, t) for bi, t in b.calls() if re.search(r"::consume$", callee_name(t))]
+        good_min = len(mins) == 1
+        detail = ""
+        if good_min:
+            m = mins[0][1]
+            s0, s1 = backward_slice(b, m["a"][0]), backward_slice(b, m["a"][1])
+            has_sub = lambda sl: any(o.startswith("Sub") for o in sl["ops"])
+            has_len = lambda sl: any(re.search(r"::len$", callee_name(c)) for c in sl["calls"]) or any(o == "PtrMetadata" for o in sl["ops"])
+            good_min = (has_sub(s0) and has_len(s1)) or (has_sub(s1) and has_len(s0))
+            lens = s1 if has_len(s1) else s0
+            if unit == "interleaved":
+                good_min = good_min and any(o.startswith("Div") for o in lens["ops"])
+                detail = "buffer length / channels"
+            else:
+                good_min = good_min and not any(o.startswith("Div") or o.startswith("Mul") for o in lens["ops"])
+        rep.check("C06.skip", "%s: step = min(buffered %s, distance to the target)" % (path, "PCM frames" if unit != "bytes" else "bytes"), good_min, loc_of(b), detail,
+                  "the skip step is not min(buffered amount in target units, target - position)")
+        if len(mins) == 1 and len(cons) >= 1:
+            M = mins[0][1]
+
+            def direct(o):
+                """operand is M's result through copies / casts only"""
+                rp = root_place(b, o) if op_place(o) is not None else None
+                if rp is None or rp["p"]:
+                    return False
+                ds = [d for d in b.defs().get(rp["l"], []) if not d[2]["d"]["p"]]
+                return len(ds) == 1 and ds[0][1] == "T" and ds[0][2] is M
+
+            def scaled(o):
+                """operand is M's result multiplied by something (the channel count)"""
+                for k, x in origins(b, o):
+                    if k == "bin" and x["op"].startswith("Mul") and (direct(x["a"]) or direct(x["b"])):
+                        return True
+                    if k == "place" and x["p"] and x["p"][0].startswith(".0"):
+                        # the value half of a checked multiplication
+                        for d in b.defs().get(x["l"], []):
+                            if d[1] != "T" and d[2]["rv"]["r"] == "bin" and d[2]["rv"]["op"].startswith("Mul") and (direct(d[2]["rv"]["a"]) or direct(d[2]["rv"]["b"])):
+                                return True
+                return False
+            okc = any((scaled(t["a"][1]) if unit == "interleaved" else direct(t["a"][1])) for bi, t in cons)
+            rep.check("C06.skip", "%s: consumes exactly the step (%s)" % (path, "x channels" if unit == "interleaved" else "same unit"), okc, loc_of(b), "",
+                      "the amount consumed from the buffer is not the skip step converted to buffer units")
+            adv = False
+            for bl in b.blocks:
+                for st_ in bl["s"]:
+                    rv = st_["rv"]
+                    if rv["r"] == "bin" and rv["op"].startswith("Add") and (direct(rv["a"]) or direct(rv["b"])):
+                        adv = True
+            rep.check("C06.skip", "%s: the position advances by exactly the step" % path, adv, loc_of(b), "",
+                      "the tracked position does not advance by the amount skipped: the loop stops early or late")
 
     # ---- C06.state / C06.table ---------------------------------------------------------------------------
     db = _get(F, rep, "C06.state", "decode::Decoder::seek")
